@@ -404,12 +404,13 @@ Step(b) == /\ globals' = b.g
            /\ UNCHANGED <<pc, defs>>
 
 Building == pc = "build" /\ ~panic /\ at <= Len(defs)
-DoService    == Building /\ defs[at].k = "service" /\ Step(BuildService(globals, defs[at]))
+\* (\E b \in {e} makes TLC evaluate the builder once per step)
+DoService    == Building /\ defs[at].k = "service" /\ \E b \in {BuildService(globals, defs[at])} : Step(b)
 DoStructLike == Building /\ defs[at].k \in {"struct", "union", "exception"}
-                         /\ Step(BuildStructLike(globals, UserStruct(defs[at])))
-DoEnum       == Building /\ defs[at].k = "enum" /\ Step(BuildEnum(globals, defs[at]))
-DoTypedef    == Building /\ defs[at].k \in {"tdstruct", "tdbase"} /\ Step(BuildTypedef(globals, defs[at]))
-DoConstant   == Building /\ defs[at].k = "const" /\ Step(BuildConstant(globals, defs[at]))
+                         /\ \E b \in {BuildStructLike(globals, UserStruct(defs[at]))} : Step(b)
+DoEnum       == Building /\ defs[at].k = "enum" /\ \E b \in {BuildEnum(globals, defs[at])} : Step(b)
+DoTypedef    == Building /\ defs[at].k \in {"tdstruct", "tdbase"} /\ \E b \in {BuildTypedef(globals, defs[at])} : Step(b)
+DoConstant   == Building /\ defs[at].k = "const" /\ \E b \in {BuildConstant(globals, defs[at])} : Step(b)
 
 Finish == /\ pc = "build" /\ (panic \/ at > Len(defs))
           /\ pc' = "done"
